@@ -116,6 +116,11 @@ def _random_layered(rng, ident):
     for i in range(nrules):
         ar = rng.choice([0, 1, 1, 2, 2, 3])
         name = "r%d" % i
+        if preds and rng.random() < 0.08:
+            # a predicate whose NAME looks like the name_arity of another one (step_1 beside step/1)
+            name = "%s_%d" % rng.choice(preds)
+            if any(pn == name for pn, _ in preds):
+                name = "r%d" % i
         lower = list(preds)
         for _ in range(rng.randint(1, 3)):
             pool = [var("X"), var("Y"), var("Z")]
